@@ -73,3 +73,168 @@ Theorem gate_refuted_F3c :
   gate dated_w 4096 file_f3c = FileOk /\ gate dated_w blocksz_def file_f3c = FileErrNoLinesFound.
 Proof. exact GateRefuted.gate_refuted_F3c. Qed.
 Print Assumptions gate_refuted_F3c.
+
+(* ====================================================================================== *)
+(* WP-G: the block-zero acceptance analysis as a COMPLETE model (Model/Gate.v gate2: per-row pattern counts, try
+   order, parse LRU cache, dt_patterns_analysis with its tie rule, second pass; EZCHECK pre-filters in Section Ez)
+   against the bs-free decision Model/GateSpec.v spec_accept.
+   Oracle: rows / dated_by_row (plain) or the per-slice match_slice + the regenerated row table (as coded). *)
+From S4.Model Require Import GateSpec.
+From S4.Proofs Require Import GateLemmas GateProofs EzcheckProofs GateTheorems GateTablesOk.
+From S4.Corr Require C12.
+
+(* gate_accept_spec: for EVERY oracle, file and permitted block size outside the four decidable classes
+   (first dated line not complete inside block zero = F3a+F3b; count minimum = F3c; mixed notation = F3d) the
+   analysis accepts exactly the files spec_accept accepts, and parses them with the row spec_accept names *)
+Theorem gate_accept_spec : forall dbr rows, NoDup rows -> forall bs (f : file),
+  sp_blocksz_min <= bs -> bs <= blocksz_max -> in_classes dbr rows bs f = false ->
+  accepted (gate_rows dbr rows bs f) = spec_accept dbr rows f.
+Proof. exact GateProofs.gate_accept_spec. Qed.
+Print Assumptions gate_accept_spec.
+
+(* gate_independent: acceptance and chosen row are equal at any two permitted block sizes outside the classes *)
+Theorem gate_independent : forall dbr rows bs1 bs2 (f : file), NoDup rows ->
+  sp_blocksz_min <= bs1 -> bs1 <= blocksz_max -> sp_blocksz_min <= bs2 -> bs2 <= blocksz_max ->
+  in_classes dbr rows bs1 f = false -> in_classes dbr rows bs2 f = false ->
+  accepted (gate_rows dbr rows bs1 f) = accepted (gate_rows dbr rows bs2 f).
+Proof. exact GateTheorems.gate_independent. Qed.
+Print Assumptions gate_independent.
+
+Theorem gate_independent_def : forall dbr rows bs (f : file), NoDup rows ->
+  sp_blocksz_min <= bs -> bs <= blocksz_max ->
+  in_classes dbr rows bs f = false -> in_classes dbr rows blocksz_def f = false ->
+  accepted (gate_rows dbr rows bs f) = accepted (gate_rows dbr rows blocksz_def f).
+Proof. exact GateTheorems.gate_independent_def. Qed.
+Print Assumptions gate_independent_def.
+
+(* a file without any dated line is rejected at every block size (no class hypothesis) *)
+Theorem gate_rejects_undated : forall dbr rows bs (f : file), 0 < bs ->
+  first_dated dbr rows f = None -> accepted (gate_rows dbr rows bs f) = None.
+Proof. exact GateProofs.gate_rejects_undated. Qed.
+Print Assumptions gate_rejects_undated.
+
+(* the hypotheses are satisfiable by a non-trivial file (multi-line first message, four messages) *)
+Theorem gate_independent_example :
+  in_classes dbr_w rows_w 64 file_uniform = false /\ in_classes dbr_w rows_w blocksz_def file_uniform = false /\
+  accepted (gate_rows dbr_w rows_w 64 file_uniform) = Some 79 /\
+  accepted (gate_rows dbr_w rows_w blocksz_def file_uniform) = Some 79 /\
+  spec_accept dbr_w rows_w file_uniform = Some 79.
+Proof. exact GateTheorems.gate_independent_example. Qed.
+Print Assumptions gate_independent_example.
+
+(* EZCHECK soundness: for every line and every counts map, find_datetime_in_line with the pre-filters finds what
+   the plain first-matching-row search finds *)
+Theorem ezcheck_sound : forall match_slice info,
+  (forall r, ri_start (info r) = 0) ->
+  (forall r s dt, ri_year4 (info r) = true -> match_slice r s = Some dt -> contains_12 s = true) ->
+  (forall r s dt, ri_d2 (info r) = true -> match_slice r s = Some dt -> contains_d2 s = true) ->
+  forall c line, parse_ez match_slice info c line = parse_plain (dated_by_row_of match_slice info) c line.
+Proof. exact EzcheckProofs.parse_ez_plain. Qed.
+Print Assumptions ezcheck_sound.
+
+(* table obligation of ezcheck_sound on the REGENERATED rows: every slice starts at byte 0 *)
+Theorem ezcheck_table_starts_zero : forall r, ri_start (C12.info_tab r) = 0.
+Proof. exact GateTablesOk.info_tab_start. Qed.
+Print Assumptions ezcheck_table_starts_zero.
+
+(* the analysis AS CODED (EZCHECK on, regenerated row table) decides spec_accept outside the classes *)
+Theorem gate_as_coded_accept_spec : forall match_slice bs (f : file),
+  (forall r s dt, ri_year4 (C12.info_tab r) = true -> match_slice r s = Some dt -> contains_12 s = true) ->
+  (forall r s dt, ri_d2 (C12.info_tab r) = true -> match_slice r s = Some dt -> contains_d2 s = true) ->
+  sp_blocksz_min <= bs -> bs <= blocksz_max ->
+  in_classes (dated_by_row_of match_slice C12.info_tab) C12.rows_tab bs f = false ->
+  accepted (gate_ez match_slice C12.info_tab C12.rows_tab bs f) =
+  spec_accept (dated_by_row_of match_slice C12.info_tab) C12.rows_tab f.
+Proof. exact GateTablesOk.gate_as_coded_accept_spec. Qed.
+Print Assumptions gate_as_coded_accept_spec.
+
+Theorem gate_as_coded_independent : forall match_slice bs (f : file),
+  (forall r s dt, ri_year4 (C12.info_tab r) = true -> match_slice r s = Some dt -> contains_12 s = true) ->
+  (forall r s dt, ri_d2 (C12.info_tab r) = true -> match_slice r s = Some dt -> contains_d2 s = true) ->
+  sp_blocksz_min <= bs -> bs <= blocksz_max ->
+  in_classes (dated_by_row_of match_slice C12.info_tab) C12.rows_tab bs f = false ->
+  in_classes (dated_by_row_of match_slice C12.info_tab) C12.rows_tab blocksz_def f = false ->
+  accepted (gate_ez match_slice C12.info_tab C12.rows_tab bs f) =
+  accepted (gate_ez match_slice C12.info_tab C12.rows_tab blocksz_def f).
+Proof. exact GateTablesOk.gate_as_coded_independent. Qed.
+Print Assumptions gate_as_coded_independent.
+
+Theorem gate_as_coded_example :
+  (forall r s dt, ri_year4 (C12.info_tab r) = true -> match_iso r s = Some dt -> contains_12 s = true) /\
+  (forall r s dt, ri_d2 (C12.info_tab r) = true -> match_iso r s = Some dt -> contains_d2 s = true) /\
+  in_classes (dated_by_row_of match_iso C12.info_tab) C12.rows_tab 64 file_uniform = false /\
+  in_classes (dated_by_row_of match_iso C12.info_tab) C12.rows_tab blocksz_def file_uniform = false /\
+  accepted (gate_ez match_iso C12.info_tab C12.rows_tab 64 file_uniform) = Some 79.
+Proof. exact GateTablesOk.gate_as_coded_example. Qed.
+Print Assumptions gate_as_coded_example.
+
+(* F3d (new): outside F3a/F3b/F3c the CHOSEN ROW depends on the block size when block zero shows dated lines
+   of two notations: count tie -> lowest index wins, and how many dated lines are counted depends on bs *)
+Theorem gate_row_refuted : exists dbr rows (f : file) bs, NoDup rows /\
+  sp_blocksz_min <= bs /\ bs <= blocksz_max /\
+  cls_first_dated_incomplete dbr rows bs f = false /\ cls_count_minimum dbr rows bs f = false /\
+  cls_first_dated_incomplete dbr rows blocksz_def f = false /\ cls_count_minimum dbr rows blocksz_def f = false /\
+  accepted (gate_rows dbr rows bs f) <> accepted (gate_rows dbr rows blocksz_def f).
+Proof. exact GateTheorems.gate_row_refuted. Qed.
+Print Assumptions gate_row_refuted.
+
+Theorem gate_row_refuted_F3d :
+  cls_first_dated_incomplete dbr_w rows_w 64 file_f3d = false /\ cls_count_minimum dbr_w rows_w 64 file_f3d = false /\
+  cls_first_dated_incomplete dbr_w rows_w blocksz_def file_f3d = false /\ cls_count_minimum dbr_w rows_w blocksz_def file_f3d = false /\
+  cls_mixed_notation dbr_w rows_w file_f3d = true /\
+  gate_rows dbr_w rows_w 64 file_f3d = (FileOk, Some 79) /\
+  gate_rows dbr_w rows_w 128 file_f3d = (FileOk, Some 0) /\
+  gate_rows dbr_w rows_w blocksz_def file_f3d = (FileOk, Some 0).
+Proof. exact GateTheorems.gate_row_refuted_F3d. Qed.
+Print Assumptions gate_row_refuted_F3d.
+
+(* the recorded witnesses under the complete model: each lies in its class, outside the classes at the other size *)
+Theorem gate_rows_F3a :
+  cls_first_dated_incomplete dbr_w rows_w 64 file_f3a = true /\ in_classes dbr_w rows_w blocksz_def file_f3a = false /\
+  accepted (gate_rows dbr_w rows_w 64 file_f3a) = None /\ accepted (gate_rows dbr_w rows_w blocksz_def file_f3a) = Some 79.
+Proof. exact GateTheorems.gate_rows_F3a. Qed.
+Print Assumptions gate_rows_F3a.
+
+Theorem gate_rows_F3b :
+  cls_first_dated_incomplete dbr_w rows_w 64 file_f3b = true /\ in_classes dbr_w rows_w blocksz_def file_f3b = false /\
+  accepted (gate_rows dbr_w rows_w 64 file_f3b) = None /\ accepted (gate_rows dbr_w rows_w blocksz_def file_f3b) = Some 79.
+Proof. exact GateTheorems.gate_rows_F3b. Qed.
+Print Assumptions gate_rows_F3b.
+
+Theorem gate_rows_F3c :
+  cls_count_minimum dbr_w rows_w blocksz_def file_f3c = true /\ in_classes dbr_w rows_w 4096 file_f3c = false /\
+  accepted (gate_rows dbr_w rows_w 4096 file_f3c) = Some 79 /\ accepted (gate_rows dbr_w rows_w blocksz_def file_f3c) = None.
+Proof. exact GateTheorems.gate_rows_F3c. Qed.
+Print Assumptions gate_rows_F3c.
+
+(* the classes are not NECESSARY conditions (no iff): a member of the first class that is analysed alike *)
+Theorem gate_classes_not_exact :
+  cls_first_dated_incomplete dbr_w rows_w 64 file_edge = true /\
+  accepted (gate_rows dbr_w rows_w 64 file_edge) = Some 79 /\
+  accepted (gate_rows dbr_w rows_w blocksz_def file_edge) = Some 79.
+Proof. exact GateTheorems.classes_not_exact. Qed.
+Print Assumptions gate_classes_not_exact.
+(* ---- end of WP-G block ---- *)
+
+(* ---- WP-A block (reader caches): the block size does not change what the CACHED readers answer ---- *)
+From S4.Model Require Import Caches.
+From S4.Proofs Require Import CachesRunProofs.
+
+(* for any two block sizes and any operation sequence without drops (find_line, find_sysline at
+   arbitrary offsets in any order, LRU caches off/on, find_line_in_block interleaved, the driver)
+   the observations of the answers of the cached machines are equal, answer by answer *)
+Theorem cached_bs_independent : forall dated bs1 bs2 (f : file) ops, 0 < bs1 -> 0 < bs2 -> Forall op_nodrop ops ->
+  map (obs_cres bs1 f) (snd (c_run dated bs1 f cinit ops)) =
+  map (obs_cres bs2 f) (snd (c_run dated bs2 f cinit ops)).
+Proof. exact CachesRunProofs.cached_bs_independent. Qed.
+Print Assumptions cached_bs_independent.
+
+(* the stage driver over the cached reader, after any (different) histories of reads and with any
+   (different) drop plans, hands the same messages to the printer at both block sizes *)
+Theorem cached_driver_bs_independent : forall dated bs1 bs2 (f : file) ops1 ops2 plan1 plan2, 0 < bs1 -> 0 < bs2 ->
+  Forall op_nodrop ops1 -> Forall op_nodrop ops2 ->
+  obs_stream bs1 f (rmap (snd (c_stream dated bs1 f plan1 (snd (fst (c_run dated bs1 f cinit ops1)))))) =
+  obs_stream bs2 f (rmap (snd (c_stream dated bs2 f plan2 (snd (fst (c_run dated bs2 f cinit ops2)))))).
+Proof. exact CachesRunProofs.cached_driver_bs_independent. Qed.
+Print Assumptions cached_driver_bs_independent.
+(* ---- end of WP-A block ---- *)
